@@ -23,6 +23,7 @@ print(f"""You are helping to evaluate a verification effort for the Go project m
   - patch.diff   : `git -C {wt} diff` of ONLY the change to non-test source files (the seeded bug), applicable with `git apply` on a clean checkout.
   - demo_test.go (or a directory demo/ with a main package) : the demonstration. State in meta.json the package directory it must be copied into (e.g. pkg/synchronization/core/zz_seed_demo_test.go) and the exact `go test -run ... ./pkg/...` command.
   - meta.json    : {{"property": "{pid}", "summary": "...what the change does...", "needs": "...what specific circumstance is needed for the breakage to manifest...", "demo_dest": "...", "demo_cmd": "...", "files_changed": [...]}}
+- Never use `git stash`, `git commit`, `git branch` or anything else that writes refs (the ref store is shared).
 - Leave the worktree clean when done (git -C {wt} checkout -- . ; remove untracked demo files), results live only under {out}.
 
 ## Requirements for each change
